@@ -61,7 +61,7 @@ FW = {"T": ({0xC3: b"\x02", 0xC1: b"\x00"}, b"main-firmware-image-bytes-01"),
 BAD_CFG = {"too-long": {(0x0100, 0x01): bytes(256)}, "key-range": {(0x10000, 0x01): b"\x01"}}
 OPS = ([("setcfg", c) for c in "ABCDE"] + [("setcfg-refused", c) for c in sorted(BAD_CFG)] + [("comments", c) for c in "ABCDE"]
        + [("auth", c, m) for c in "ABCDE" for m in ("cust", "ecc")]
-       + [("fw", where, k) for where in ("append", "insert") for k in "TN"] + [("writeread",), ("writeread", "partial")])
+       + [("fw", where, k) for where in ("append", "insert") for k in "TN"] + [("writeread",), ("writeread", "partial"), ("writecheck",)])
 
 
 class St:
@@ -77,6 +77,9 @@ class St:
         self.comments = {"FirmwareId": "1053"}
         self.auth = {}            # tag -> descriptor
         self.counter = 0
+        # what the CURRENT object looked like when it was last written (None: never): anything a write measures or remembers on
+        # the object dates from that moment, so two histories only lead to "the same state" if that moment looked the same
+        self.written = None
         self.prov = "fresh"       # were the current objects built by the caller or by the reader (after WriteRead)?
         # the caller's configuration dictionaries: the SAME objects are handed to every operation of a history
         self.cfgs = {k: dict(v) for k, v in CFG.items()}
@@ -91,7 +94,7 @@ def canon(st):
     # the caller's dictionaries are part of the state (an operation that modifies them changes what later operations see)
     cfgstate = tuple(tuple(sorted((repr(k), v) for k, v in st.cfgs[n].items())) == tuple(sorted((repr(k), v) for k, v in CFG[n].items())) for n in "ABCDE")
     # which component objects were produced by the reader (they may differ in ways the observable fields do not show)
-    return (comps, tuple(sorted(b.bf3file.comments.items())), auth, st.prov, cfgstate,
+    return (comps, tuple(sorted(b.bf3file.comments.items())), auth, st.prov, st.written, cfgstate,
             tuple(len(c.blob) for c in b.bf3file.components))
 
 
@@ -243,7 +246,33 @@ def step(st, op):
                 o.viol("writeread|blocks", "auth blocks changed by write/read: %r" % (r.auth_blocks,))
         st.bec = r
         st.prov = "read"
+        st.written = None
         check_components(st, o, what)
+    elif kind == "writecheck":
+        # the object is written and STAYS in use (an application that saves, goes on editing and saves again): what is written
+        # now must read back to the object's content now - whatever an earlier write measured or remembered
+        if not bec.auth_blocks or any(isinstance(b, UnknownAuthBlock) for b in bec.auth_blocks.values()):
+            return None
+        codes = [b.config_security_code for b in bec.auth_blocks.values() if isinstance(b, UpdateAuthBlock)]
+        encs = [SoftwareCustKeyEncryptor(CKEY), EccDecryptor(0, FX.priv_key(SCALAR))]
+        s = io.StringIO()
+        rnd = DetRandom("c11")
+        rnd.counter = st.counter
+        with rnd:
+            bec.write_file(s, encs)
+        st.counter = rnd.counter
+        s.seek(0)
+        try:
+            r = Bec2File.read_file(s, encs + [ConfigSecurityCodeEncryptor(c) for c in codes])
+        except Exception as e:
+            o.viol("writecheck|unreadable", "%s: the file written from an object that had been written before does not read back: %r" % (what, e))
+            return st, o
+
+        def view(f):
+            return [(sorted(c.description.items()), bytes(c.blob[:c.actual_len]), c.actual_len, bool(c.encrypt_by_session_key)) for c in f.components]
+        if view(r.bf3file) != view(bec.bf3file) or r.bf3file.comments != bec.bf3file.comments:
+            o.viol("writecheck|content", "%s: the file written now does not read back to the object's current content" % what)
+        st.written = canon(st)[:3]
     else:
         raise ValueError(op)
     # invariants that hold in every state
